@@ -1070,9 +1070,14 @@ def _build_constant(
 ) -> str | Expr:
     if isinstance(node.value, str):
         if in_joined_str and not in_formatted_str:
-            # We're in a f-string, not in a formatted value, don't keep quotes,
+            # We're in a f-string, not in a formatted value, don't keep quotes
+            # (f-strings are rendered with single quotes: escape the text accordingly),
             # and double the braces that are meant literally.
-            return node.value.replace("{", "{{").replace("}", "}}")
+            text = repr(node.value)
+            if text[0] == '"':
+                # `repr` chose double quotes, so it left the single quotes of the text unescaped.
+                text = text.replace("'", "\\'")
+            return text[1:-1].replace("{", "{{").replace("}", "}}")
         if parse_strings and not literal_strings:
             # We're in a place where a string could be a type annotation
             # (and not in a Literal[...] type annotation).
